@@ -49,7 +49,7 @@ NOTES = [
  (r"^ide::def::search::FindUsages::set_scope/explicit/assert!/0$", "builder misuse check: every caller sets the scope at most once on a fresh FindUsages"),
  (r"^ide::def::semantics::Definition::to_nav/api/TextRange::new/0$", "TextRange::new(0, 0)"),
  (r"^ide::def::semantics::Semantics::cache/explicit/assert!/0$", "called with parse(..).syntax_node(), a root"),
- (r"^ide::def::semantics::Semantics::cache/explicit/assert!/1$", "roots are keyed by green-tree identity; two files never share one parse result"),
+ (r"^ide::def::semantics::Semantics::cache/explicit/assert!/1$", "roots are keyed by green-tree identity; two files never share one parse result (the parse query is keyed by the file: C10/Q13)"),
  (r"^ide::def::semantics::Semantics::(cache/api/RefCell::borrow_mut|find_file::\{closure#0\}/api/RefCell::borrow|lookup/api/RefCell::borrow)/0$", "the RefCell guard never outlives the statement that takes it and Semantics is single-threaded (per request)"),
  (r"^ide::def::semantics::Semantics::find_file::\{closure#0\}/explicit/panic!/0$", "reached only for a node whose root was not registered by Semantics::parse; every feature parses the file it works on through sema.parse first and nodes of other files reach sema.* only through sema.parse as well (read: goto_definition, references, hover, completion, rename, search)"),
  (r"^ide::def::semantics::find_root/api/Option::unwrap/0$", "ancestors() always yields the node itself first"),
